@@ -110,6 +110,7 @@ class Interp:
         self.funcs_run = set()
         self.max_steps = 5_000_000
         self.overrides = {}
+        self.frames = []
         self.depth = 0
 
     # ------------------------------------------------------------------ solver
@@ -889,6 +890,13 @@ class Interp:
                 raise Unsupported('arity mismatch calling %s: %d vs %d' % (fn.name, len(args), fn.argc))
         for (idx, _), v in zip(fn.params, args):
             frame[idx].v = v
+        self.frames.append((fn, frame))
+        try:
+            return self._exec(fn, frame)
+        finally:
+            self.frames.pop()
+
+    def _exec(self, fn, frame):
         bb = 0
         blocks = fn.blocks
         while True:
